@@ -471,6 +471,38 @@ pub fn run(ctx: &Ctx) -> Report {
         st.state(f);
     }
 
+    // ---- 5. one authenticator object used more than once (unstable API): every sequence of operations
+    //         {prevalidate, validate_signature, validate_signature on a clone} x 3 configurations x 5 server clocks;
+    //         each operation's outcome is what it is for that operation alone, whatever the object was used for before
+    {
+        use super::c04::{authenticator_ops, OP_SYMBOLS};
+        let depth = if thorough { 3u32 } else { 2 };
+        let nseq = enumr::seq_count(OP_SYMBOLS, depth);
+        let part = crate::core::par_sweep(nseq * 2, |i, st| {
+            let carrier = if i % 2 == 0 { Carrier::Header } else { Carrier::Query };
+            let seq = enumr::seq_decode(i / 2, OP_SYMBOLS, depth);
+            if seq.is_empty() {
+                return;
+            }
+            st.evaluations += 1;
+            st.validated += 1;
+            st.transitions += seq.len() as u64;
+            st.nontrivial(&("authenticator-ops", &seq, carrier));
+            st.outcome("authenticator-ops");
+            if let Some((pos, exp, obs)) = authenticator_ops(&seq, carrier) {
+                st.violation(Violation {
+                    index: 500_000 + i,
+                    what: format!("outcome-depends-on-what-the-authenticator-was-used-for-before(step {} of {:?})", pos, seq),
+                    case: json!({"authenticator_ops": seq, "carrier": format!("{:?}", carrier)}),
+                    expected: exp,
+                    observed: obs,
+                    known: None,
+                });
+            }
+        });
+        st = st.merge(part);
+    }
+
     // ---- 1. histories: every sequence of <= L validations in this process
     let l: u32 = if thorough { 3 } else { 2 };
     let nh = enumr::seq_count(n as u64, l);
@@ -810,7 +842,7 @@ pub fn run(ctx: &Ctx) -> Report {
     Report {
         stats: st,
         rule: format!(
-            "corpus of {} requests (one per stage of the documented order on each carrier, valid, wrong signature, with and without a session token; folded form, S3 + token, same credential under three tokens, five refusals that stop half-way through an element, six requests under server clocks 10 minutes apart incl. the edges of each window, two other server configurations, four other renderings of the timestamp on both carriers, pairs of equally long bodies of 1023 .. 200 000 bytes with different content and one body under the other's signature); outcome = Ok payload digest (returned parts, body, principal) or error kind; fresh-state outcome of each element = its outcome when validated first in a fresh process. (1) every sequence of 1..{} validations in one process: each step equals its fresh-state outcome; (2) joint iteration orders of the crate's query and header maps exhausted (projection on <= 4 keys each) with identical canonical bytes and outcome, incl. the prefix rule whose error is raised inside a map iteration; (3) one fresh process per corpus element validated first{}; (4a) real threads under a controlled scheduler whose scheduling points are the crate's own log records and every provider event: 6 two-thread pairs ({}), 3 threads at preemption bound {}{}; (4b) 2-3 validation futures multiplexed on one thread with every order of polls (pending body / readiness / key future); built-in canaries (shared scratch buffer) must be caught by 4a and 4b on every run; plus a free-running barrier pass (sampling, supplementary). states = distinct outcomes / outcome vectors",
+            "corpus of {} requests (one per stage of the documented order on each carrier, valid, wrong signature, with and without a session token; folded form, S3 + token, same credential under three tokens, five refusals that stop half-way through an element, six requests under server clocks 10 minutes apart incl. the edges of each window, two other server configurations, four other renderings of the timestamp on both carriers, pairs of equally long bodies of 1023 .. 200 000 bytes with different content and one body under the other's signature); outcome = Ok payload digest (returned parts, body, principal) or error kind; fresh-state outcome of each element = its outcome when validated first in a fresh process. (1) every sequence of 1..{} validations in one process: each step equals its fresh-state outcome; (2) joint iteration orders of the crate's query and header maps exhausted (projection on <= 4 keys each) with identical canonical bytes and outcome, incl. the prefix rule whose error is raised inside a map iteration; (3) one fresh process per corpus element validated first{}; (4a) real threads under a controlled scheduler whose scheduling points are the crate's own log records and every provider event: 6 two-thread pairs ({}), 3 threads at preemption bound {}{}; (4b) 2-3 validation futures multiplexed on one thread with every order of polls (pending body / readiness / key future); built-in canaries (shared scratch buffer) must be caught by 4a and 4b on every run; plus a free-running barrier pass (sampling, supplementary); (5) every sequence of 1..2 (thorough 3) operations {{prevalidate, validate_signature, validate_signature on a clone}} x 3 configurations x 5 server clocks on one authenticator object (unstable API), each operation judged alone. states = distinct outcomes / outcome vectors",
             n, l, if thorough { " (4 rounds)" } else { "" }, if thorough { "all interleavings" } else { "all schedules with <= 3 preemptions" }, if thorough { 3 } else { 2 }, if thorough { ", 4 threads at bound 2" } else { "" }
         ),
         bounds: json!({"corpus": n, "history_length": l}),
